@@ -386,6 +386,63 @@ fn query_storage_checks(ev: &mut Ev) {
             ev.violation("C13:constructor", "Interp2D::new_unchecked gives different answers than the builder", 9_200_001, J::obj());
         }
     }
+    // arguments that share one buffer: axis and data as columns of one table (C and F order),
+    // the query being the interpolator's own axis / a data column / a view of the same table
+    {
+        use vh::ndarray::s;
+        use vh::ndarray_interp::interp1d::cubic_spline::CubicSpline;
+        let mut rng = Rng::derive(13, "C13-shared-buffer", &[0]);
+        for round in 0..40u64 {
+            let n = 4 + rng.below(6);
+            let cols = 2 + rng.below(3);
+            let mut table = if round % 2 == 0 { Array2::<f64>::zeros((n, cols)) } else { Array2::<f64>::zeros((cols, n)).reversed_axes() };
+            let mut pos = rng.irange(-8, 8) as f64 * 0.5;
+            for i in 0..n {
+                table[[i, 0]] = pos;
+                pos += 0.25 * (1 + rng.below(7)) as f64;
+                for c in 1..cols {
+                    // data values inside the axis range, so that a data column can serve as query
+                    table[[i, c]] = table[[0, 0]] + rng.f01() * (pos - 0.25 - table[[0, 0]]).max(0.0) * if i == 0 { 0.0 } else { 1.0 };
+                }
+            }
+            let hi = table[[n - 1, 0]];
+            table.slice_mut(s![.., 1..]).mapv_inplace(|v| if v > hi { hi } else { v });
+            let (xv, dv) = (table.column(0), table.slice(s![.., 1..]));
+            let (xo, dow) = (xv.to_owned(), dv.to_owned());
+            let spline = round % 4 >= 2;
+            macro_rules! both {
+                ($strat:expr) => {{
+                    let shared = Interp1D::builder(dv).x(xv).strategy($strat).build().unwrap();
+                    let owned = Interp1D::builder(dow.clone()).x(xo.clone()).strategy($strat).build().unwrap();
+                    // queries: the axis itself, a data column, midpoints - as views of the table
+                    // for the shared interpolator and as owned copies for the owned one
+                    let col1 = table.column(1);
+                    let mids: Array1<f64> = xo.windows(2).into_iter().map(|w| (w[0] + w[1]) / 2.0).collect();
+                    let pairs: Vec<(&str, Array2<f64>, Array2<f64>)> = vec![
+                        ("query = the interpolator's own axis view", shared.interp_array(&xv).unwrap(), owned.interp_array(&xo).unwrap()),
+                        ("query = a data column of the same table", shared.interp_array(&col1).unwrap(), owned.interp_array(&col1.to_owned()).unwrap()),
+                        ("query = midpoints", shared.interp_array(&mids).unwrap(), owned.interp_array(&mids).unwrap()),
+                    ];
+                    for (name, a, b) in pairs {
+                        ev.add("shared_buffer_comparisons", 1);
+                        if !(a.shape() == b.shape() && a.iter().zip(b.iter()).all(|(x, y)| x.to_bits() == y.to_bits())) {
+                            ev.violation(
+                                "C13:layout-dependent-result",
+                                &format!("axis and data as columns of one {} table ({n} x {cols}), {name}: {:?} differs from the all-owned baseline {:?}", if round % 2 == 0 { "C-order" } else { "F-order" }, a, b),
+                                9_300_000 + round,
+                                J::obj().set("round", round),
+                            );
+                        }
+                    }
+                }};
+            }
+            if spline {
+                both!(CubicSpline::new());
+            } else {
+                both!(Linear::new());
+            }
+        }
+    }
     // rank-1 static (fast path) with every storage kind
     let q1: Array1<f64> = array![0.5, 2.5, 3.0, 0.0];
     let b1 = interp.interp_array(&q1).unwrap();
